@@ -151,11 +151,11 @@ def internTable (p : Profile) : Option (List Str) :=
   | .ok x => some x.stringTable
   | _ => none
 
-/-! ### dense id tables of postDecode: one per entity table, each `len+extra` long, no index
-expression outside its `id < uint64(len(table))` guard (recognised inline or behind a helper type) -/
-def expectedDenseTables (extra : Nat) : List Gen.CodecSchema.DenseTable :=
-  [ { elem := "Mapping", table := "Mapping", extra := extra, unguardedIndexes := 0 },
-    { elem := "Function", table := "Function", extra := extra, unguardedIndexes := 0 },
-    { elem := "Location", table := "Location", extra := extra, unguardedIndexes := 0 } ]
+/-! ### dense id tables of postDecode: at most one per entity table (an entity table may also be
+resolved through the map alone), each `len+extra` long, no index expression outside its
+`id < uint64(len(table))` guard (recognised inline or behind a helper type) -/
+def denseTableOK (extra : Nat) (d : Gen.CodecSchema.DenseTable) : Bool :=
+  d.elem == d.table && ["Mapping", "Function", "Location"].contains d.table &&
+  d.extra == extra && d.unguardedIndexes == 0
 
 end PV.Spec.CodecSchemaExpected
